@@ -103,7 +103,10 @@ fn harness<K: Kit>(sc: &Scenario) -> Harness<K> {
     let p1 = rig.pd.clone();
     let p2 = Arc::new(Pd::<K> { space: rig.space.clone(), start_states: vec![s2.clone()], goal: g2.clone() });
     let bad_start = K::from_v(&b.alphabet[ak.far]);
-    let pbad = Arc::new(Pd::<K> { space: rig.space.clone(), start_states: vec![bad_start], goal: g1.clone() });
+    // (the problem with the rejected start asks for a goal region no tree node or milestone can lie in - a ball of radius
+    // 1e-9 around its own rejected start: whatever else is wrong with the question, the answer is InvalidStartState)
+    let gbad = Arc::new(HGoal::<K>::new(vec![(bad_start.clone(), 1e-9)], vec![bad_start.clone()], dist_fn::<K>(&sc.spec)));
+    let pbad = Arc::new(Pd::<K> { space: rig.space.clone(), start_states: vec![bad_start], goal: gbad });
     // world 2: the far obstacle plus a ball on the middle state of the forward script
     let mut w2 = sc.world.clone();
     w2.name = format!("{}+route-blocked", w2.name);
